@@ -65,6 +65,7 @@ type Recorder struct {
 	Removed   []channel.ID
 	Phases    []PhaseRec
 	Published []PubRec
+	Told      []ToldRec
 	OnEnable  func(r EnabledRec)
 }
 
@@ -183,7 +184,57 @@ func (w *recWatcher) StartWatchingLedgerChannel(ctx context.Context, s channel.S
 	if err != nil {
 		return p, a, err
 	}
-	return &recPub{p, w.n}, a, nil
+	return &recPub{p, w.n}, newRecSub(a, w.n), nil
+}
+
+// recSub hands the watcher's events on to the client one by one and records
+// the instant at which the client's event loop took each of them.
+type recSub struct {
+	watcher.AdjudicatorSub
+	out chan channel.AdjudicatorEvent
+}
+
+// ToldRec records that the client's event loop took an adjudicator event from
+// its watcher.
+type ToldRec struct {
+	At         time.Duration
+	Ch         channel.ID
+	Version    uint64
+	Registered bool
+}
+
+func newRecSub(a watcher.AdjudicatorSub, n *Node) *recSub {
+	s := &recSub{AdjudicatorSub: a, out: make(chan channel.AdjudicatorEvent)}
+	go func() {
+		defer close(s.out)
+		for e := range a.EventStream() {
+			select {
+			case s.out <- e:
+				_, reg := e.(*channel.RegisteredEvent)
+				n.Rec.mu.Lock()
+				n.Rec.Told = append(n.Rec.Told, ToldRec{At: n.W.S.Now(), Ch: e.ID(), Version: e.Version(), Registered: reg})
+				n.Rec.mu.Unlock()
+			case <-n.dead:
+				return
+			}
+		}
+	}()
+	return s
+}
+
+func (s *recSub) EventStream() <-chan channel.AdjudicatorEvent { return s.out }
+
+// FirstToldRegistered returns the instant at which the client's event loop
+// for channel id first took a RegisteredEvent from the watcher.
+func (r *Recorder) FirstToldRegistered(id channel.ID) (time.Duration, bool) {
+	r.mu.Lock()
+	defer r.mu.Unlock()
+	for _, t := range r.Told {
+		if t.Ch == id && t.Registered {
+			return t.At, true
+		}
+	}
+	return 0, false
 }
 
 func (w *recWatcher) StartWatchingSubChannel(ctx context.Context, parent channel.ID, s channel.SignedState) (watcher.StatesPub, watcher.AdjudicatorSub, error) {
@@ -191,7 +242,7 @@ func (w *recWatcher) StartWatchingSubChannel(ctx context.Context, parent channel
 	if err != nil {
 		return p, a, err
 	}
-	return &recPub{p, w.n}, a, nil
+	return &recPub{p, w.n}, newRecSub(a, w.n), nil
 }
 
 func (p *recPub) Publish(ctx context.Context, tx channel.Transaction) error {
@@ -269,6 +320,11 @@ type Node struct {
 	// NextAccNonce, if set, keys the nonce share of the next accepted proposal.
 	NextAccNonce string
 	watchWG      sync.WaitGroup
+	dead         chan struct{} // closed when the instance crashes or the world shuts down
+	deadOnce     sync.Once
+	// UpdateBegan records when the handling of an incoming update began here
+	// (the user's handler was invoked), keyed by channel and version.
+	UpdateBegan map[string]time.Duration
 	handleDone   chan struct{}
 	CtxTimeout   time.Duration
 }
@@ -306,7 +362,7 @@ func (w *World) AddPersistentNode(name string, accIdx int, db sortedkv.Database)
 
 func (w *World) addNode(name string, accIdx int, pr persistence.PersistRestorer, db sortedkv.Database) *Node {
 	n := &Node{W: w, Name: name, Acc: gen.Pool(accIdx + 1)[accIdx], Wire: wireAddr(name), chanByID: map[channel.ID]*client.Channel{},
-		CtxTimeout: 30 * time.Second, handleDone: make(chan struct{}), DB: db}
+		CtxTimeout: 30 * time.Second, handleDone: make(chan struct{}), DB: db, dead: make(chan struct{}), UpdateBegan: map[string]time.Duration{}}
 	n.Wallet = simwallet.NewWallet()
 	_ = n.Wallet.AddAccount(n.Acc.Acc)
 	n.Wallet.IncrementUsage(n.Acc.Acc.Address()) // the account outlives every channel of the run
@@ -374,6 +430,7 @@ func (w *World) hasName(name string) bool {
 // durable store as of this instant is returned. The left-over goroutines of
 // the old instance can no longer affect anything.
 func (n *Node) Crash() sortedkv.Database {
+	n.deadOnce.Do(func() { close(n.dead) })
 	n.Port.Kill()
 	n.Party.Dead.Store(true)
 	n.W.Bus.Detach(n.Wire)
@@ -467,6 +524,11 @@ func (n *Node) handleUpdate(cur *channel.State, u client.ChannelUpdate, r *clien
 	n.mu.Unlock()
 	cname := n.W.S.ChanName(u.State.ID)
 	n.W.S.Event(n.Name, "handler:update", fmt.Sprintf("%s v%d", cname, u.State.Version))
+	n.mu.Lock()
+	if k := fmt.Sprintf("%x:%d", u.State.ID, u.State.Version); n.UpdateBegan[k] == 0 {
+		n.UpdateBegan[k] = n.W.S.Now()
+	}
+	n.mu.Unlock()
 	accept, react := true, 50*time.Microsecond
 	if pol != nil {
 		accept, react = pol(cur, u)
@@ -519,6 +581,7 @@ func (w *World) Shutdown() {
 	for _, name := range w.names {
 		n := w.Nodes[name]
 		_ = n.Client.Close()
+		n.deadOnce.Do(func() { close(n.dead) })
 	}
 	// let close callbacks (StopWatching waits 1ms on the fake clock) finish
 	time.Sleep(50 * time.Millisecond)
